@@ -24,6 +24,7 @@ func init() {
 			"R02.5 Context.Authorize admits only after Authenticate applied without error with a principal (or anonymous) and after the registered authorizer accepted that very principal; principal and scopes stored in the request context come from the satisfied alternative; refusals carry the scheme's error, 401, the authorizer's error or 403; " +
 			"R02.6 buildAuthenticators creates one group per requirement with every scheme and its scopes and flags anonymity only for the single empty requirement. " +
 			"R02.3 also: after a scheme was consulted the principal carried on is that scheme's own (a later nil principal is not masked by an earlier one). " +
+			"R02.3 also: the authenticator always receives a fresh security.ScopedAuthRequest; R02.6 also: each alternative's scheme list and scopes table are allocated inside that alternative's iteration. " +
 			"NOT decided: behaviour of user-supplied authenticators/authorizers; the content of the analyzed spec (go-openapi/analysis).",
 		Assumptions: []string{"analysis.Spec.SecurityRequirementsFor returns the operation's requirement alternatives as documented"},
 		Run:         runC02,
